@@ -18,6 +18,13 @@ if ! go build -tags verif -o "$BUILD/vw-$ID" ./cmd/vw >"$LOG" 2>&1; then
   echo "BUILD-FAILED property=$ID (see $LOG)"; tail -20 "$LOG"; exit 3
 fi
 case "$ID" in
+  C08)
+    if ! go build -tags verif -o "$BUILD/vwfresh-$ID" ./cmd/vwfresh >>"$LOG" 2>&1; then
+      echo "BUILD-FAILED (vwfresh) property=$ID (see $LOG)"; tail -20 "$LOG"; exit 3
+    fi
+    export VW_FRESH_EXE="$BUILD/vwfresh-$ID" ;;
+esac
+case "$ID" in
   C12)
     if ! go build -race -tags verif -o "$BUILD/vw-$ID-race" ./cmd/vw >>"$LOG" 2>&1; then
       echo "BUILD-FAILED (race) property=$ID (see $LOG)"; tail -20 "$LOG"; exit 3
